@@ -1,6 +1,8 @@
 package main
 
 import (
+	"math"
+	"strconv"
 	"bufio"
 	"fmt"
 	"io"
@@ -43,6 +45,8 @@ type Solver struct {
 	portfolio bool
 	crossCheck bool
 	nDisagree int
+	nKilled   int
+	restarted bool
 	nCross    int
 	vars      []*Term // declared vars this epoch, in order
 	dead      bool
@@ -193,6 +197,51 @@ func (s *Solver) readLine() string {
 	return strings.TrimSpace(line)
 }
 
+// readVerdict waits for the answer to a check-sat, but not forever: z3's soft timeout is not
+// honoured inside some preprocessing steps (bit-blasting of large terms).  After a grace period the
+// process is killed and restarted with the current assertion stack; the query counts as unknown.
+func (s *Solver) readVerdict() string {
+	type ans struct{ line string }
+	ch := make(chan ans, 1)
+	out := s.out
+	go func() {
+		for {
+			line, err := out.ReadString('\n')
+			if err != nil {
+				ch <- ans{"(error \"solver died\")"}
+				return
+			}
+			if t := strings.TrimSpace(line); t != "" {
+				ch <- ans{t}
+				return
+			}
+		}
+	}()
+	grace := time.Duration(s.incTimeoutMs)*time.Millisecond*4 + 2*time.Second
+	select {
+	case a := <-ch:
+		if strings.HasPrefix(a.line, "(error \"solver died") {
+			s.restart()
+		}
+		return a.line
+	case <-time.After(grace):
+		s.nKilled++
+		s.restart()
+		return "unknown"
+	}
+}
+
+// restart kills the solver process and rebuilds the assertion stack of the current path.
+func (s *Solver) restart() {
+	s.Close()
+	s.start()
+	s.raw("(push 1)")
+	for _, l := range s.log {
+		s.raw(l)
+	}
+	s.restarted = true
+}
+
 // Check decides satisfiability of (path condition ∧ extra).
 func (s *Solver) Check(extra *Term) SatResult {
 	if extra != nil && extra.cst {
@@ -210,17 +259,27 @@ func (s *Solver) Check(extra *Term) SatResult {
 		}
 	}()
 	s.nQueries++
+	if s.incTimeoutMs <= 0 {
+		// incremental solving disabled (floating-point heavy harnesses): one-shot portfolio only
+		if extra != nil {
+			s.termString(extra)
+		}
+		s.nFallback++
+		r := s.oneShot(extra, false)
+		if r == Unknown {
+			s.nUnknown++
+		}
+		return r
+	}
 	if extra != nil {
 		str := s.termString(extra)
 		s.raw("(push 1)")
 		s.raw("(assert " + str + ")")
 	}
+	s.restarted = false
 	s.raw("(check-sat)")
-	res := s.readLine()
-	for res == "" {
-		res = s.readLine()
-	}
-	if extra != nil {
+	res := s.readVerdict()
+	if extra != nil && !s.restarted {
 		s.raw("(pop 1)")
 	}
 	switch res {
@@ -331,7 +390,19 @@ func (s *Solver) oneShotModel(extra *Term, model bool) (SatResult, map[string]st
 					a.m = parseValues(lines[1])
 				}
 			case "unsat":
-				if !strings.Contains(txt, "(error") {
+				// an error BEFORE the verdict could mean a dropped assertion; the only error allowed
+				// after it is the get-value complaint that an unsat problem has no model
+				rest := ""
+				if len(lines) > 1 {
+					rest = lines[1]
+				}
+				bad := false
+				for _, l := range strings.Split(rest, "\n") {
+					if strings.Contains(l, "(error") && !strings.Contains(l, "model is not available") && !strings.Contains(l, "cannot get value") && !strings.Contains(l, "Cannot get") {
+						bad = true
+					}
+				}
+				if !bad {
 					a.r = Unsat
 				}
 			}
@@ -363,6 +434,12 @@ func (s *Solver) oneShotModel(extra *Term, model bool) (SatResult, map[string]st
 			c.Process.Kill()
 		}
 	}
+	if res.r == Unknown && slowDump != "" {
+		if b, err := os.ReadFile(name); err == nil {
+			os.WriteFile(name+".unknown", b, 0644)
+			fmt.Fprintln(os.Stderr, "unknown one-shot query kept:", name+".unknown")
+		}
+	}
 	if s.crossCheck && res.r != Unknown {
 		s.nCross += len(got) - 1
 	}
@@ -387,16 +464,25 @@ func (s *Solver) Model(extra *Term) (SatResult, map[string]string) {
 		}
 		extra = nil
 	}
+	if s.incTimeoutMs <= 0 {
+		if extra != nil {
+			s.termString(extra)
+		}
+		s.nFallback++
+		r, m := s.oneShotModel(extra, true)
+		if r == Unknown {
+			s.nUnknown++
+		}
+		return r, m
+	}
 	if extra != nil {
 		str := s.termString(extra)
 		s.raw("(push 1)")
 		s.raw("(assert " + str + ")")
 	}
+	s.restarted = false
 	s.raw("(check-sat)")
-	res := s.readLine()
-	for res == "" {
-		res = s.readLine()
-	}
+	res := s.readVerdict()
 	var m map[string]string
 	var r SatResult
 	switch res {
@@ -419,7 +505,7 @@ func (s *Solver) Model(extra *Term) (SatResult, map[string]string) {
 	default:
 		r = Unknown
 	}
-	if extra != nil {
+	if extra != nil && !s.restarted {
 		s.raw("(pop 1)")
 	}
 	if r == Unknown {
@@ -555,6 +641,9 @@ func canonValue(e *sexp) string {
 	if len(e.list) == 3 && e.list[0].atom == "_" && strings.HasPrefix(e.list[1].atom, "bv") {
 		return e.list[1].atom[2:]
 	}
+	if f, ok := fpValue(e); ok {
+		return f
+	}
 	return e.String()
 }
 
@@ -606,4 +695,44 @@ func (s *Solver) ModelWith(ts []*Term) (SatResult, map[string]string, []string) 
 		vals[i] = canonValue(e.list[len(s.vars)+i].list[1])
 	}
 	return Sat, m, vals
+}
+
+
+// fpValue renders an SMT-LIB Float64 value as a Go float literal.
+func fpValue(e *sexp) (string, bool) {
+	if len(e.list) == 4 && e.list[0].atom == "fp" {
+		bits := ""
+		for _, part := range e.list[1:] {
+			a := part.atom
+			switch {
+			case strings.HasPrefix(a, "#b"):
+				bits += a[2:]
+			case strings.HasPrefix(a, "#x"):
+				v, _ := new(big.Int).SetString(a[2:], 16)
+				bits += fmt.Sprintf("%0*b", 4*(len(a)-2), v)
+			default:
+				return "", false
+			}
+		}
+		if len(bits) != 64 {
+			return "", false
+		}
+		v, _ := new(big.Int).SetString(bits, 2)
+		return strconv.FormatFloat(math.Float64frombits(v.Uint64()), 'g', -1, 64), true
+	}
+	if len(e.list) == 4 && e.list[0].atom == "_" {
+		switch e.list[1].atom {
+		case "+zero":
+			return "0", true
+		case "-zero":
+			return "-0", true
+		case "+oo":
+			return "+Inf", true
+		case "-oo":
+			return "-Inf", true
+		case "NaN":
+			return "NaN", true
+		}
+	}
+	return "", false
 }
